@@ -219,7 +219,12 @@ def c06_r3(ctx):
             apps = [s_ for s_ in lp.body if isinstance(s_, ast.Expr) and isinstance(s_.value, ast.Call) and norm.call_name(s_.value) == "append"
                     and norm.canon(norm.receiver(s_.value)) == offs]
             incs = [s_ for s_ in lp.body if isinstance(s_, ast.AugAssign) and isinstance(s_.op, ast.Add)]
-            ok = len(lp.body) == 2 and len(apps) == 1 and len(incs) == 1 and lp.body[0] is apps[0] and \
+            # both statements sit directly in the loop body (unconditional), append first; nothing else touches the base
+            base_t = norm.canon(incs[0].target) if len(incs) == 1 else None
+            others = [s_ for s_ in lp.body if s_ not in apps and s_ not in incs and
+                      any(isinstance(x, (ast.Name, ast.Attribute)) and isinstance(x.ctx, ast.Store) and norm.canon(x) in (base_t, offs) for x in ast.walk(s_))]
+            ok = len(apps) == 1 and len(incs) == 1 and lp.body.index(apps[0]) < lp.body.index(incs[0]) and not others and \
+                not any(isinstance(s_, (ast.Continue, ast.Break, ast.Return)) for s_ in ast.walk(lp) if s_ is not lp) and \
                 norm.canon(apps[0].value.args[0]) == norm.canon(incs[0].target) and \
                 norm.canon(incs[0].value) == "%s.%s()" % (v, counter)
             detail = " ; ".join(body)
